@@ -184,6 +184,42 @@ def make(rng, cls):
         else:
             return None
         t = app('=', [call, g.term(call.sort, 0)], BOOL)
+    elif cls == 'LetSubstitution' and rng.random() < 0.6:
+        # binders that meet: a declared symbol v occurs in a bound term and is bound again (by the same let, by a let or a
+        # quantifier inside the body), or the let-bound name itself is bound again inside the body
+        vs = rng.choice([INT, BOOL, bv(4)])
+        v = g.fresh('cv')
+        g.cmds.append(syn(('declare-const', v, vs)))
+        g.vars.append((v, vs))
+        name = g.fresh('l')
+
+        def mention(x):      # a term of sort vs that mentions x
+            if vs == INT:
+                return app('+', [leaf(x, vs), leaf('1', INT)], INT)
+            if vs == BOOL:
+                return app('not', [leaf(x, vs)], BOOL)
+            return app('bvadd', [leaf(x, vs), leaf('#b0001', vs)], vs)
+
+        def lit():
+            return leaf({INT: '5', BOOL: 'false'}.get(vs, '#b0101'), vs)
+
+        def let(bindings, body, so):
+            return T(None, [syn('let'), T(None, [T(None, [syn(n_), t_], None, 'syntax') for n_, t_ in bindings], None, 'syntax'), body], so)
+        use = app('=', [leaf(name, vs), leaf(v, vs)], BOOL)
+        k = rng.choice(['parallel', 'nested', 'shadow', 'quant', 'plain2'])
+        if k == 'parallel':
+            t = let([(name, mention(v)), (v, lit())], use, BOOL)
+        elif k == 'nested':
+            t = let([(name, mention(v))], let([(v, lit())], use, BOOL), BOOL)
+        elif k == 'shadow':
+            t = let([(name, lit())], app('and', [use, let([(name, mention(v))], use, BOOL)], BOOL), BOOL)
+        elif k == 'quant':
+            q = rng.choice(['forall', 'exists'])
+            inner = T(None, [syn(q), syn(((v, vs),)), app('or', [use, app('=', [leaf(v, vs), lit()], BOOL)], BOOL)], BOOL)
+            t = let([(name, mention(v))], inner, BOOL)
+        else:
+            other = g.fresh('l')
+            t = let([(name, mention(v)), (other, lit())], app('and', [use, app('=', [leaf(other, vs), leaf(name, vs)], BOOL)], BOOL), BOOL)
     elif cls == 'LetSubstitution' or cls == 'LetElimination':
         vs = rng.choice(g.sorts())
         name = g.fresh('l')
